@@ -159,6 +159,10 @@ type hashAppRec struct {
 }
 
 func (in *Interp) recordHashApp(name string, t *Term) {
+	if in.st.hashSyms == nil {
+		in.st.hashSyms = map[string]bool{}
+	}
+	in.st.hashSyms[t.name] = true
 	l, _ := in.extra["hashapps"].([]hashAppRec)
 	in.extra["hashapps"] = append(l, hashAppRec{name, t})
 	// once the harness has asked for the ideal-hash assumptions they also cover every hash computed
